@@ -9,6 +9,23 @@ BASELINE = ("cd /repo && env -u PYCRAFT_VERIF /venv/bin/python -m pytest -ra -q 
             "--timeout=900 --continue-on-collection-errors")
 
 CHECKS = {
+    'C16': dict(
+        technique='TLA+ model of the connection lifecycle (ConnLifecycle.tla) with all interleavings checked by TLC (invariants, action '
+                  'properties, liveness; the pre-fix code must fail); single-thread histories replayed into the real object (S->I); '
+                  'two-thread executions of the real code under preemption-bounded and seeded random schedules of a deterministic '
+                  'scheduler validated against the contract Trace_Lifecycle.tla by TLC (I->S)',
+        text='ConnLifecycle.tla models thread slots, interrupt flags, socket/file attribute states (incl. never assigned), user threads '
+             'calling connect / disconnect / disconnect(immediate), the networking thread step by step (begin, join, adopt, loop top, '
+             'write phase with deferred errors, read phase outcomes, exit callback, exception path with the non-atomic interrupt check '
+             'before disconnect(immediate), finally), reconnects from listeners and exception handlers, servers that accept, refuse or '
+             'close. TLC checks AtMostOneInIo, RefusalIsClean, InvalidStateIffActive, DisconnectNeverRaises, SlotsClearedWhenDead, '
+             'IdleMeansConnectable, SuccessorAfterPredecessor and interrupt ~> terminated. The real Connection runs every single-thread '
+             'history <= 4 and thousands of two-thread scenarios with real threads under a token-passing scheduler (virtual lock, '
+             'socket, select, queue, thread start/join); every execution is judged event by event by the contract.',
+        note='Trusted: TLC, the scheduler and virtual primitives (semantics observed on real sockets), CPython atomicity of attribute '
+             'access. API bodies are atomic in the model because the code holds the write lock throughout. An extra invariant '
+             '(NoCrossTeardown) fails in the model: observation outside the listed properties, recorded in DESIGN.md.',
+        design='5/C16'),
     'C15': dict(
         technique='TLA+ model of read_packet with end of stream at every offset (Framing.tla: safety + liveness, the pre-fix loop '
                   'must fail) checked by TLC; five reference conversations cut at every byte offset run against the real client '
